@@ -1,7 +1,7 @@
 """C08 — decoding the labels an encoder produced reconstructs the event sequence.
 
 Every sequence op drives one real EventSequenceEncoderDecoder object and returns the bundle
-  [input_size, num_classes, inputs@ps, labels@ps, decode(label p, events[:p])@ps, encode(events),
+  [input_size, num_classes, default_event_label, inputs@ps, labels@ps, decode(label p, events[:p])@ps, encode(events),
    generation loop over the given labels from [], labels_to_num_steps(labels)]
 An entry that raises is [] (any exception class), a value is [value].  Input vectors are canonicalised to
 [len, [[index, value] for the non-zero entries]].
@@ -159,7 +159,7 @@ def _bundle(h, es_w, ps, ls_w):
     e = h.ed
     es = [h.ev_in(x) for x in es_w]
     ls = [h.lab_in(x) for x in ls_w]
-    out = [e.input_size, h.ncls]
+    out = [e.input_size, h.ncls, _opt(lambda: h.lab_out(e.default_event_label))]
     out.append([_opt(lambda: _vec(e.events_to_input(es, p))) for p in ps])
     labs = [_opt(lambda: e.events_to_label(es, p)) for p in ps]
     labs = [l if l and _opt(lambda: h.lab_out(l[0])) else [] for l in labs]
@@ -187,6 +187,17 @@ def _bundle(h, es_w, ps, ls_w):
     return out
 
 
+def _wrappers(c):
+    """OptionalEventSequenceEncoder / MultipleEventSequenceEncoder around the one-hot and lookback melody encoders
+    (encoders only; not named by the property - checked on the implementation side only, no model)."""
+    from note_seq import encoder_decoder as ed, melody_encoder_decoder as med
+    oh = ed.OneHotEventSequenceEncoderDecoder(med.MelodyOneHotEncoding(c['mn'], c['mx']))
+    base = ed.LookbackEventSequenceEncoderDecoder(med.MelodyOneHotEncoding(c['mn'], c['mx']), list(c['ds']), c['bits'])
+    return (oh, base, ed.OptionalEventSequenceEncoder(base),
+            ed.MultipleEventSequenceEncoder([oh, base], encode_single_sequence=True),
+            ed.MultipleEventSequenceEncoder([oh, base]))
+
+
 def _np_cfg(c):
     from note_seq import performance_encoder_decoder as ped
     try:
@@ -211,13 +222,20 @@ def impl(case):
             return [cfg]
         h = _H(e, list(e.num_classes), _npe, _npe_out, tuple, list)
         return [cfg, _bundle(h, a['es'], a['ps'], a['ls'])]
+    if op == 'wrappers':
+        oh, base, opt, m1, m2 = _wrappers(c)
+        es, es2, dis, ps = a['es'], a['es2'], a['dis'], a['ps']
+        tup = [(bool(d), e) for d, e in zip(dis, es)]
+        return [opt.input_size, [_opt(lambda: _vec(opt.events_to_input(tup, p))) for p in ps],
+                m1.input_size, [_opt(lambda: _vec(m1.events_to_input(es, p))) for p in ps],
+                m2.input_size, [_opt(lambda: _vec(m2.events_to_input(list(zip(es, es2)), p))) for p in ps]]
     if op == 'conditional':
         from note_seq import encoder_decoder as ed, melody_encoder_decoder as med
         ctl = ed.OneHotEventSequenceEncoderDecoder(med.MelodyOneHotEncoding(c['cmn'], c['cmx']))
         tgt = ed.LookbackEventSequenceEncoderDecoder(med.MelodyOneHotEncoding(c['mn'], c['mx']), list(c['ds']), c['bits'])
         e = ed.ConditionalEventSequenceEncoderDecoder(ctl, tgt)
         cs, ts, ps, ls = a['cs'], a['es'], a['ps'], a['ls']
-        out = [e.input_size, e.num_classes]
+        out = [e.input_size, e.num_classes, _opt(lambda: e.default_event_label)]
         out.append([_opt(lambda: _vec(e.events_to_input(cs, ts, p))) for p in ps])
         out.append([_opt(lambda: e.events_to_label(ts, p)) for p in ps])
 
@@ -241,6 +259,8 @@ def impl(case):
 def model_input(case):
     op, a = case['op'], case['input']
     c = a['cfg']
+    if op == 'wrappers':
+        return None
     k = OPS[op]
     if op in ('onehot_mel', 'onehotidx_mel'):
         return [k, c['mn'], c['mx'], a['es'], a['ps'], a['ls']]
@@ -287,10 +307,10 @@ def model_output(case, m):
     if op == 'modulo_perf':
         c = a['cfg']
         m = list(m)
-        m[2] = [[_modulo_vec(x[0], c['nb'], c['ms'])] if x else [] for x in m[2]]
-        if m[5]:
-            ins, labs = m[5][0]
-            m[5] = [[[_modulo_vec(x, c['nb'], c['ms']) for x in ins], labs]]
+        m[3] = [[_modulo_vec(x[0], c['nb'], c['ms'])] if x else [] for x in m[3]]
+        if m[6]:
+            ins, labs = m[6][0]
+            m[6] = [[[_modulo_vec(x, c['nb'], c['ms']) for x in ins], labs]]
         return m
     return m
 
@@ -369,6 +389,79 @@ def _steps_of(op, evs):
     return len(evs)
 
 
+def _expected_lookback_input(es, p, ds, bits, n, default, enc):
+    """The layout lookback_input_shape proves: one-hot(current) ++ one-hot(next event per lookback) ++ counter ++ flags."""
+    v = [0] * (n + len(ds) * n + bits + len(ds))
+    v[enc(es[p])] = 1
+    off = n
+    for d in ds:
+        lp = p - d + 1
+        v[off + enc(default if lp < 0 else es[lp])] = 1
+        off += n
+    for i in range(bits):
+        v[off] = 1 if ((p + 1) // 2 ** i) % 2 else -1
+        off += 1
+    for d in ds:
+        if p - d >= 0 and es[p] == es[p - d]:
+            v[off] = 1
+        off += 1
+    return v
+
+
+def _keymelody_input_problem(v, es, p, c):
+    """The block structure keymelody_input_shape proves; returns a short reason or None."""
+    mn, nr, ds, bits = c['mn'], c['mx'] - c['mn'], c['ds'], c['bits']
+    k = len(ds)
+    pitch, playing, silence = v[:nr], v[nr], v[nr + 1]
+    attack, asc = v[nr + 2], v[nr + 3]
+    o = nr + 4
+    flags, cnt = v[o:o + k], v[o + k:o + k + bits]
+    o += k + bits
+    bar, keys1, keys2 = v[o], v[o + 1:o + 13], v[o + 13:o + 25]
+    cur = None
+    for e in es[:p + 1]:
+        if e == NOTE_OFF:
+            cur = None
+        elif e != NO_EVENT:
+            cur = e
+    if cur:                                     # the code's own truthiness: pitch 0 counts as silence
+        if pitch != [1 if i == cur - mn else 0 for i in range(nr)] or (playing, silence) != (1, 0):
+            return 'pitch-cell-or-playing-flag'
+    elif any(pitch) or (playing, silence) != (0, 1):
+        return 'silence-flag'
+    if attack not in (0, 1) or asc not in (-1, 0, 1):
+        return 'attack-or-ascending-cell'
+    if flags != [1 if (p - d >= 0 and es[p] == es[p - d]) else 0 for d in ds]:
+        return 'repeat-flags'
+    if cnt != [1 if ((p + 1) // 2 ** i) % 2 else -1 for i in range(bits)]:
+        return 'counter-bits'
+    if bar != (1 if (p + 1) % 16 == 0 else 0):
+        return 'bar-flag'
+    for ks in (keys1, keys2):
+        if len(ks) != 12 or any(x not in (0, 1) for x in ks) or not any(ks):
+            return 'key-flags'
+    return None
+
+
+def _modulo_input_problem(sv, e, c):
+    """Count and block structure of the modulo input: valid bit at the block offset of the event's range,
+    nothing written outside that block."""
+    n, nz = sv
+    widths = [(T_ON, 5), (T_OFF, 5), (T_SHIFT, 3)] + ([(T_VEL, 3)] if c['nb'] > 0 else [])
+    if n != sum(w for _, w in widths):
+        return 'size'
+    off = 0
+    for ty, w in widths:
+        if ty == e[0]:
+            break
+        off += w
+    if [off, 1] not in nz:
+        return 'valid-bit'
+    if any(not (off <= i < off + w) for i, _ in nz):
+        return 'written-outside-block'
+    return None
+
+
 def oracle(case, io):
     op, a = case['op'], case['input']
     c = a['cfg']
@@ -381,13 +474,15 @@ def oracle(case, io):
         io = io[1]
     if op == 'conditional':
         return _oracle_conditional(case, io)
+    if op == 'wrappers':
+        return _oracle_wrappers(case, io)
     es, ps, ls = a['es'], a['ps'], a['ls']
     ds = c.get('ds', [])
     if any(d <= 0 for d in ds):
         return None                      # outside the property (distances are positive step counts)
     if op in ('lookback_mel', 'lookback_perf', 'keymelody') and c['bits'] < 0:
         return None
-    size, ncls, ins, labs, decs, enc, gen, steps = io
+    size, ncls, dlab, ins, labs, decs, enc, gen, steps = io
     valid = {'onehot_mel': _mel_valid, 'onehotidx_mel': _mel_valid, 'lookback_mel': _mel_valid, 'keymelody': _mel_valid,
              'onehot_perf': _perf_valid, 'lookback_perf': _perf_valid,
              'modulo_perf': lambda c: _perf_valid(dict(c, minp=0, maxp=127)),
@@ -399,6 +494,18 @@ def oracle(case, io):
     allvalid = all(valid(e) for e in es)
     where = {'op': op, 'cfg': c}
     blocks = _one_hot_blocks(op, c, ncls, size)
+    # default_event_label: an in-range label that decodes (against an empty history) to the default event
+    dflt = {'onehot_mel': NO_EVENT, 'onehotidx_mel': NO_EVENT, 'lookback_mel': NO_EVENT, 'keymelody': NO_EVENT,
+            'onehot_perf': [T_SHIFT, c.get('ms')], 'lookback_perf': [T_SHIFT, c.get('ms')],
+            'modulo_perf': [T_SHIFT, c.get('ms')], 'pianoroll': [],
+            'noteperf': [[T_SHIFT, 0], [T_ON, 60], [T_VEL, 1], [T_DUR, 1]]}[op]
+    if op != 'noteperf' or (c['minp'] <= 60 <= c['maxp'] and c['nvb'] >= 1):
+        if not dlab or not _in_range(dlab[0], ncls):
+            return dict(where, kind='default-event-label-out-of-range', got=dlab)
+        h = _handle_for(case)
+        back = _opt(lambda: h.ev_out(h.ed.class_index_to_event(h.lab_in(dlab[0]), [])))
+        if back != [dflt]:
+            return dict(where, kind='default-event-label-does-not-decode-to-default-event', got=back, label=dlab[0])
     if allvalid:
         for j, p in enumerate(ps):
             if not (0 <= p < len(es)):
@@ -437,6 +544,23 @@ def oracle(case, io):
             n, nzs = ins[j][0]
             if n != size:
                 return dict(where, kind='input-length-is-not-input-size', position=p, events=es, length=n, input_size=size)
+            if op in ('lookback_mel', 'lookback_perf'):
+                kk = len(ds)
+                if op == 'lookback_mel':
+                    expv = _expected_lookback_input(es, p, ds, c['bits'], ncls - kk, NO_EVENT, _mel_enc(c))
+                else:
+                    expv = _expected_lookback_input([tuple(e) for e in es], p, ds, c['bits'], ncls - kk,
+                                                    (T_SHIFT, c['ms']), _perf_enc(c))
+                if _dense(ins[j][0]) != expv:
+                    return dict(where, kind='lookback-input-layout', position=p, events=es)
+            if op == 'keymelody':
+                why = _keymelody_input_problem(_dense(ins[j][0]), es, p, c)
+                if why:
+                    return dict(where, kind='keymelody-input-layout', position=p, events=es, block=why)
+            if op == 'modulo_perf':
+                why = _modulo_input_problem(ins[j][0], es[p], c)
+                if why:
+                    return dict(where, kind='modulo-input-layout', position=p, events=es, block=why)
             if blocks is not None:
                 v = _dense(ins[j][0])
                 for (st, w) in blocks:
@@ -510,6 +634,29 @@ def _oracle_np_cfg(c, cfg):
     return None
 
 
+def _oracle_wrappers(case, io):
+    a = case['input']
+    c = a['cfg']
+    oh, base, opt, m1, m2 = _wrappers(c)
+    es, es2, dis, ps = a['es'], a['es2'], a['dis'], a['ps']
+    osz, oins, s1, i1, s2, i2 = io
+    where = {'op': 'wrappers', 'cfg': c}
+    if osz != 1 + base.input_size or s1 != oh.input_size + base.input_size or s2 != s1:
+        return dict(where, kind='wrapper-input-size')
+    for j, p in enumerate(ps):
+        b = [int(x) for x in base.events_to_input(es, p)]
+        b2 = [int(x) for x in base.events_to_input(es2, p)]
+        o = [int(x) for x in oh.events_to_input(es, p)]
+        exp = [1] + [0] * base.input_size if dis[p] else [0] + b
+        if oins[j] != [_vec(exp)]:
+            return dict(where, kind='optional-encoder-input', position=p, events=es, disabled=dis)
+        if i1[j] != [_vec(o + b)]:
+            return dict(where, kind='multiple-encoder-input', position=p, events=es, single=True)
+        if i2[j] != [_vec(o + b2)]:
+            return dict(where, kind='multiple-encoder-input', position=p, events=es, events2=es2, single=False)
+    return None
+
+
 def _oracle_conditional(case, io):
     from note_seq import encoder_decoder as ed, melody_encoder_decoder as med
     a = case['input']
@@ -517,7 +664,7 @@ def _oracle_conditional(case, io):
     if any(d <= 0 for d in c['ds']) or c['bits'] < 0:
         return None
     cs, ts, ps, ls = a['cs'], a['es'], a['ps'], a['ls']
-    size, ncls, ins, labs, enc, gen, steps = io
+    size, ncls, dlab, ins, labs, enc, gen, steps = io
     ctl = ed.OneHotEventSequenceEncoderDecoder(med.MelodyOneHotEncoding(c['cmn'], c['cmx']))
     tgt = ed.LookbackEventSequenceEncoderDecoder(med.MelodyOneHotEncoding(c['mn'], c['mx']), list(c['ds']), c['bits'])
     where = {'op': 'conditional', 'cfg': c}
@@ -525,6 +672,8 @@ def _oracle_conditional(case, io):
         return dict(where, kind='conditional-input-size')
     if ncls != tgt.num_classes:
         return dict(where, kind='conditional-num-classes')
+    if not dlab or not (0 <= dlab[0] < ncls) or tgt.class_index_to_event(dlab[0], []) != NO_EVENT:
+        return dict(where, kind='default-event-label-does-not-decode-to-default-event', got=dlab)
     cv = lambda e: e in (NO_EVENT, NOTE_OFF) or c['cmn'] <= e < c['cmx']
     tv = _mel_valid(c)
     if not (all(cv(e) for e in cs) and all(tv(e) for e in ts)):
@@ -576,9 +725,11 @@ def nontrivial(case, io):
         if io[0][0] != 0:
             return False
         io = io[1]
+    if op == 'wrappers':
+        return len(case['input']['es']) >= 1
     if op == 'conditional':
-        return len(case['input']['es']) >= 2 and any(io[3])
-    return len(case['input']['es']) >= 2 and any(io[4])
+        return len(case['input']['es']) >= 2 and any(io[4])
+    return len(case['input']['es']) >= 2 and any(io[5])
 
 
 # ---------------------------------------------------------------- generators
@@ -776,6 +927,15 @@ def cases(rng, tier, n=None):
         cs = [rng.choice(cal) for _k in range(nc)]
         out.append(_case('conditional', {'cmn': cmn, 'cmx': cmx, 'mn': mn, 'mx': mx, 'ds': ds, 'bits': bits}, ts,
                          _positions(rng, len(ts)), _labels(rng, mx - mn + 2 + len(ds)), cs=cs))
+    for _ in range(25 * mult):           # encoder-only wrappers (implementation side only)
+        mn, mx = _mel_cfg(rng)
+        ds = _gen_dists(rng, 5)
+        al = _mel_alphabet(mn, mx, rng)
+        es = _gen_seq(rng, al, ds, 12, NO_EVENT)
+        es2 = [rng.choice(al) for _k in es]
+        out.append({'op': 'wrappers', 'input': {'cfg': {'mn': mn, 'mx': mx, 'ds': ds, 'bits': rng.choice([0, 3])}, 'es': es,
+                                                'es2': es2, 'dis': [rng.random() < 0.3 for _k in es],
+                                                'ps': list(range(len(es)))}})
     out += _exhaustive(8, 6) if thorough else _exhaustive(4, 3)
     if n is not None:
         rng.shuffle(out)
@@ -805,7 +965,7 @@ def corpus():
 
 def shrink(case):
     op, a = case['op'], case['input']
-    if 'es' not in a:
+    if 'es' not in a or op == 'wrappers':
         return
     es, ls = a['es'], a['ls']
     for i in range(len(es)):
